@@ -63,7 +63,7 @@ type Sym struct {
 	Op     token.Token
 	Expr   ast.Expr
 	Type   types.Type
-	Alts   []string             // symChoice: the condition of each alternative
+	Alts   []string              // symChoice: the condition of each alternative
 	Env    map[types.Object]*Sym // symFuncLit: the environment the literal was created in
 	Lit    *ast.FuncLit
 }
@@ -308,12 +308,18 @@ type symWalker struct {
 	// OnText is called for every outermost string concatenation / Sprintf with a constant format
 	OnText    func(w *symWalker, at ast.Expr, text *Sym)
 	textDepth int
-	returned []*Sym // last return values seen at depth of this walker
-	nret     int
-	rets     []symReturn
-	baseCond int
+	returned  []*Sym // last return values seen at depth of this walker
+	nret      int
+	rets      []symReturn
+	baseCond  int
 	// Assume fixes the truth value of boolean expressions by their canonical text (e.g. "rule.Negated")
 	Assume map[string]bool
+	// AssumeFn may replace a field / variable value by a constant (a case split by the rule)
+	AssumeFn func(s *Sym) *Sym
+	// OnSend is called for every channel send statement
+	OnSend func(w *symWalker, st *ast.SendStmt, ch *Sym, val *Sym)
+	broke  bool // an unconditional break was executed in the loop body being unrolled
+	globalsSeen map[types.Object]*Sym
 }
 
 type symReturn struct {
@@ -431,6 +437,7 @@ func (p *Prog) SymWalk(pk *packages.Package, fd *ast.FuncDecl, proto *symWalker,
 	w := &symWalker{p: p, pk: pk, info: pk.TypesInfo, fd: fd, env: map[types.Object]*Sym{}, stack: map[types.Object]bool{}}
 	if proto != nil {
 		w.Inline, w.OnCall, w.OnStore, w.OnReturn, w.OnText, w.Assume = proto.Inline, proto.OnCall, proto.OnStore, proto.OnReturn, proto.OnText, proto.Assume
+		w.AssumeFn, w.OnSend = proto.AssumeFn, proto.OnSend
 		w.conds, w.loops, w.depth = append([]symCond{}, proto.conds...), append([]*Sym{}, proto.loops...), proto.depth
 		for k := range proto.stack {
 			w.stack[k] = true
@@ -457,6 +464,11 @@ func (w *symWalker) lookup(o types.Object, e ast.Expr) *Sym {
 	case *types.Const:
 		return &Sym{K: symConst, C: x.Val(), Expr: e}
 	case *types.Var:
+		if x.Pkg() != nil && x.Parent() == x.Pkg().Scope() && !x.Exported() {
+			if v := w.globalTable(x); v != nil {
+				return v
+			}
+		}
 		return &Sym{K: symVar, Obj: o, Expr: e, Type: x.Type()}
 	case *types.Nil:
 		return &Sym{K: symNil, Expr: e}
@@ -555,6 +567,11 @@ func (w *symWalker) eval(e ast.Expr) *Sym {
 	if s != nil && w.Assume != nil && (s.K == symField || s.K == symVar) {
 		if b, ok := w.Assume[s.String()]; ok {
 			return symBool(b)
+		}
+	}
+	if s != nil && w.AssumeFn != nil && (s.K == symField || s.K == symVar) {
+		if r := w.AssumeFn(s); r != nil {
+			return r
 		}
 	}
 	if s != nil && s.Type == nil {
@@ -869,7 +886,7 @@ func (w *symWalker) call(x *ast.CallExpr) *Sym {
 			if fdecl == nil {
 				fdecl = &ast.FuncDecl{Name: ast.NewIdent("func-literal"), Type: ftype, Body: fbody}
 			}
-			proto := &symWalker{Inline: w.Inline, OnCall: w.OnCall, OnStore: w.OnStore, OnText: w.OnText, OnReturn: nil, Assume: w.Assume, conds: w.conds, loops: w.loops, depth: w.depth + 1, stack: w.stack}
+			proto := &symWalker{Inline: w.Inline, OnCall: w.OnCall, OnStore: w.OnStore, OnText: w.OnText, OnReturn: nil, Assume: w.Assume, AssumeFn: w.AssumeFn, OnSend: w.OnSend, conds: w.conds, loops: w.loops, depth: w.depth + 1, stack: w.stack}
 			sub := w.p.SymWalk(fpk, fdecl, proto, bind)
 			switch {
 			case len(sub.rets) == 1 && len(sub.rets[0].vals) == 1:
@@ -1160,7 +1177,24 @@ func (w *symWalker) stmt(st ast.Stmt) (terminates bool) {
 		}
 		return true
 	case *ast.BranchStmt:
+		if x.Tok == token.BREAK {
+			allConst := true
+			for _, cnd := range w.conds {
+				if _, isConst := cnd.Cond.ConstBool(); !isConst {
+					allConst = false
+				}
+			}
+			// (conditions recorded before the loop are constant or irrelevant for the rules that unroll tables)
+			if allConst || w.AssumeFn != nil {
+				w.broke = true
+			}
+		}
 		return x.Tok == token.CONTINUE || x.Tok == token.BREAK || x.Tok == token.GOTO
+	case *ast.SendStmt:
+		ch, val := w.eval(x.Chan), w.eval(x.Value)
+		if w.OnSend != nil {
+			w.OnSend(w, x, ch, val)
+		}
 	case *ast.IfStmt:
 		if x.Init != nil {
 			w.stmt(x.Init)
@@ -1231,9 +1265,20 @@ func (w *symWalker) stmt(st ast.Stmt) (terminates bool) {
 				if x.Value != nil {
 					w.assign(x.Value, el, x, true)
 				}
+				w.broke = false
 				w.block(x.Body.List)
+				if w.broke {
+					w.broke = false
+					break
+				}
 			}
 			return false
+		}
+		savedBrokeR := w.broke
+		defer func() { w.broke = savedBrokeR }()
+		isChan := false
+		if tv, ok := w.info.Types[x.X]; ok {
+			_, isChan = tv.Type.Underlying().(*types.Chan)
 		}
 		assigned := w.assignedIn(x.Body)
 		// accumulators: `acc = append(acc, e...)` as a direct, unconditional statement of the body and the only assignment
@@ -1251,7 +1296,20 @@ func (w *symWalker) stmt(st ast.Stmt) (terminates bool) {
 			}
 			return true
 		})
+		skipped := false // an earlier statement of the body can skip the rest of the iteration
 		for _, st := range x.Body.List {
+			if skipped {
+				break
+			}
+			ast.Inspect(st, func(m ast.Node) bool {
+				switch m.(type) {
+				case *ast.BranchStmt, *ast.ReturnStmt:
+					skipped = true
+				case *ast.FuncLit:
+					return false
+				}
+				return true
+			})
 			as, ok := st.(*ast.AssignStmt)
 			if !ok || len(as.Lhs) != 1 || len(as.Rhs) != 1 || as.Tok != token.ASSIGN {
 				continue
@@ -1283,7 +1341,20 @@ func (w *symWalker) stmt(st ast.Stmt) (terminates bool) {
 		var fills []fill
 		if keyID, ok := x.Key.(*ast.Ident); ok && keyID.Name != "_" {
 			keyObj := w.info.Defs[keyID]
+			skippedF := false
 			for _, st := range x.Body.List {
+				if skippedF {
+					break
+				}
+				ast.Inspect(st, func(m ast.Node) bool {
+					switch m.(type) {
+					case *ast.BranchStmt, *ast.ReturnStmt:
+						skippedF = true
+					case *ast.FuncLit:
+						return false
+					}
+					return true
+				})
 				as, ok := st.(*ast.AssignStmt)
 				if !ok || len(as.Lhs) != 1 || len(as.Rhs) != 1 || as.Tok != token.ASSIGN {
 					continue
@@ -1313,7 +1384,11 @@ func (w *symWalker) stmt(st ast.Stmt) (terminates bool) {
 			w.env[o] = &Sym{K: symAcc, Obj: o}
 		}
 		if x.Key != nil {
-			w.assign(x.Key, &Sym{K: symIdx, X: X}, x, true)
+			if isChan {
+				w.assign(x.Key, &Sym{K: symElem, X: X}, x, true)
+			} else {
+				w.assign(x.Key, &Sym{K: symIdx, X: X}, x, true)
+			}
 		}
 		if x.Value != nil {
 			w.assign(x.Value, &Sym{K: symElem, X: X}, x, true)
@@ -1346,6 +1421,8 @@ func (w *symWalker) stmt(st ast.Stmt) (terminates bool) {
 			w.env[f.o] = &Sym{K: symList, Parts: []*Sym{{K: symRepeat, X: X, Parts: []*Sym{v}}}}
 		}
 	case *ast.ForStmt:
+		savedBrokeF := w.broke
+		defer func() { w.broke = savedBrokeF }()
 		if x.Init != nil {
 			w.stmt(x.Init)
 		}
@@ -1360,6 +1437,8 @@ func (w *symWalker) stmt(st ast.Stmt) (terminates bool) {
 		w.loops = w.loops[:len(w.loops)-1]
 		w.forget(assigned, x)
 	case *ast.SwitchStmt:
+		savedBroke := w.broke
+		defer func() { w.broke = savedBroke }()
 		if x.Init != nil {
 			w.stmt(x.Init)
 		}
@@ -1370,13 +1449,16 @@ func (w *symWalker) stmt(st ast.Stmt) (terminates bool) {
 		assigned := w.assignedIn(x)
 		snap := w.snapshot()
 		allTerm, hasDefault := true, false
+		taken, constTaken := false, false
 		var prior []symCond
 		for _, cl := range x.Body.List {
 			cc, ok := cl.(*ast.CaseClause)
 			if !ok {
 				continue
 			}
-			w.env = copyEnv(snap)
+			if !taken {
+				w.env = copyEnv(snap)
+			}
 			var cond *Sym
 			for _, ce := range cc.List {
 				v := w.eval(ce)
@@ -1393,6 +1475,49 @@ func (w *symWalker) stmt(st ast.Stmt) (terminates bool) {
 				}
 			}
 			base := len(w.conds)
+			if cond != nil {
+				cond = fold(cond)
+				if cond.K == symBin && cond.Op == token.LOR {
+					// fold a disjunction of constant comparisons
+					var flat func(s *Sym) (bool, bool)
+					flat = func(s *Sym) (bool, bool) {
+						s = fold(s)
+						if b, ok := s.ConstBool(); ok {
+							return b, true
+						}
+						if s.K == symBin && s.Op == token.LOR {
+							lb, lok := flat(s.X)
+							rb, rok := flat(s.Y)
+							if lok && lb || rok && rb {
+								return true, true
+							}
+							if lok && rok {
+								return false, true
+							}
+						}
+						return false, false
+					}
+					if b, ok := flat(cond); ok {
+						cond = symBool(b)
+					}
+				}
+			}
+			if taken {
+				continue
+			}
+			if cond != nil {
+				if b, ok := cond.ConstBool(); ok {
+					if !b {
+						continue
+					}
+					taken = true
+					if !w.block(cc.Body) {
+						allTerm = false
+					}
+					constTaken = true
+					continue
+				}
+			}
 			if cond == nil {
 				hasDefault = true
 				w.conds = append(w.conds, prior...)
@@ -1405,10 +1530,16 @@ func (w *symWalker) stmt(st ast.Stmt) (terminates bool) {
 			}
 			w.conds = w.conds[:base]
 		}
+		if constTaken {
+			// the taken clause ran in the copied environment of its iteration: keep it
+			return false
+		}
 		w.env = snap
 		w.forget(assigned, x)
 		return allTerm && hasDefault
 	case *ast.TypeSwitchStmt:
+		savedBrokeT := w.broke
+		defer func() { w.broke = savedBrokeT }()
 		if x.Init != nil {
 			w.stmt(x.Init)
 		}
@@ -1579,4 +1710,60 @@ func (s *Sym) Template() string {
 		return s.C.ExactString()
 	}
 	return "‹" + s.String() + "›"
+}
+
+// globalTable: an unexported package-level variable of the module that is initialised with a composite literal (a table)
+// and never assigned, stored through or address-taken anywhere in its package is read as that literal.
+func (w *symWalker) globalTable(v *types.Var) *Sym {
+	if w.globalsSeen == nil {
+		w.globalsSeen = map[types.Object]*Sym{}
+	}
+	if s, ok := w.globalsSeen[v]; ok {
+		return s
+	}
+	w.globalsSeen[v] = nil
+	init, pk := w.p.varInitializer(v)
+	if init == nil || pk == nil {
+		return nil
+	}
+	if _, ok := ast.Unparen(init).(*ast.CompositeLit); !ok {
+		return nil
+	}
+	mutated := false
+	for _, f := range pk.Syntax {
+		ast.Inspect(f, func(n ast.Node) bool {
+			switch x := n.(type) {
+			case *ast.AssignStmt:
+				for _, l := range x.Lhs {
+					ast.Inspect(l, func(m ast.Node) bool {
+						if id, ok := m.(*ast.Ident); ok && pk.TypesInfo.Uses[id] == types.Object(v) {
+							mutated = true
+						}
+						return true
+					})
+				}
+			case *ast.UnaryExpr:
+				if x.Op == token.AND {
+					if id, ok := ast.Unparen(x.X).(*ast.Ident); ok && pk.TypesInfo.Uses[id] == types.Object(v) {
+						mutated = true
+					}
+				}
+			case *ast.IncDecStmt:
+				ast.Inspect(x.X, func(m ast.Node) bool {
+					if id, ok := m.(*ast.Ident); ok && pk.TypesInfo.Uses[id] == types.Object(v) {
+						mutated = true
+					}
+					return true
+				})
+			}
+			return true
+		})
+	}
+	if mutated {
+		return nil
+	}
+	sub := &symWalker{p: w.p, pk: pk, info: pk.TypesInfo, env: map[types.Object]*Sym{}, stack: map[types.Object]bool{}, globalsSeen: w.globalsSeen}
+	val := sub.eval(init)
+	w.globalsSeen[v] = val
+	return val
 }
